@@ -166,6 +166,9 @@ class FabricRun(object):
           self.last_pub[k] = uid
           if prio is None:
             f.publish(e)
+          elif self.sc.get('fresh_priorities'):
+            # an equal priority computed at run time: a separate int object (like a number read from a message)
+            f.publish(e, priority=int(str(prio)))
           else:
             f.publish(e, priority=prio)
           self.pubs[uid]['end'] = sim.seq
